@@ -1861,8 +1861,17 @@ _FMT_SIZES = {'b': 1, 'B': 1, 'h': 2, 'H': 2, 'i': 4, 'I': 4, 'l': 4, 'L': 4, 'q
 def _parse_fmt(fmt):
     if isinstance(fmt, bytes):
         fmt = fmt.decode()
-    if not fmt or fmt[0] not in '<>!=':
-        raise EngineLimit('struct format without explicit byte order: %r' % fmt)
+    native = None
+    if fmt and (fmt[0] == '@' or fmt[0] not in '<>!='):
+        # native mode (no prefix or '@'): host byte order and host sizes; only single-item formats, where alignment padding cannot occur
+        body = fmt[1:] if fmt[0] == '@' else fmt
+        if len(body) != 1 or body not in _FMT_SIZES or body in 'xc':
+            raise EngineLimit('native-mode struct format with more than one item: %r' % fmt)
+        import sys
+        native = _struct.calcsize(body)
+        return ('<' if sys.byteorder == 'little' else '>'), [(body, native)]
+    if not fmt:
+        raise EngineLimit('empty struct format')
     end = '<' if fmt[0] == '<' else '>'
     if fmt[0] == '=':
         import sys
